@@ -736,3 +736,22 @@ fn edge_metric(c_a: &VertexSet, c_b: &VertexSet, edge_weight: EdgeWeightMethod) 
         EdgeWeightMethod::Cubic => n_1.pow(3) + n_2.pow(3) - n_m.pow(3),
     }
 }
+
+// read-only verification accessor (compiled only with --cfg clarabel_verif): what `kruskal`
+// does with the current clique graph, computed on a COPY of the edge matrix
+#[cfg(clarabel_verif)]
+impl CliqueGraphMergeStrategy {
+    #[allow(clippy::type_complexity)]
+    pub(crate) fn verif_kruskal_trace(
+        &self,
+        t: &SuperNodeTree,
+    ) -> (Vec<(usize, usize, isize)>, Vec<bool>) {
+        let mut E = self.edges.clone();
+        clique_intersections(&mut E, &t.snode);
+        let (I, J, V) = E.findnz();
+        kruskal(&mut E, t.n_cliques);
+        let taken = E.nzval.iter().map(|v| *v == -1).collect();
+        let edges = I.into_iter().zip(J).zip(V).map(|((i, j), v)| (i, j, v)).collect();
+        (edges, taken)
+    }
+}
